@@ -37,9 +37,21 @@ impl Clone for Elem {
         Elem { val: self.val, live: self.live.clone() }
     }
 }
+thread_local! {
+    /// fault injection: when armed with n > 0, the n-th element destructor on this thread panics (after accounting)
+    static DROP_FUSE: std::cell::Cell<i64> = const { std::cell::Cell::new(0) };
+}
+struct DropFault;
 impl Drop for Elem {
     fn drop(&mut self) {
         self.live.fetch_sub(1, Ordering::SeqCst);
+        let f = DROP_FUSE.with(|c| c.get());
+        if f > 0 {
+            DROP_FUSE.with(|c| c.set(f - 1));
+            if f == 1 && !std::thread::panicking() {
+                std::panic::panic_any(DropFault);
+            }
+        }
     }
 }
 impl PartialEq for Elem {
@@ -237,8 +249,17 @@ fn run_slice_seq(r: &mut Rng, ctors: &[u64], ops: &[(u64, usize, usize)]) -> (Ve
                 trace.push(format!("into_owned #{} ({:?})", i, mk));
             }
             2 => {
-                // drop
+                // drop (now and then one element's destructor panics: the rest and the buffer are released all the same)
                 let (cow, mk, content) = pool.swap_remove(i);
+                if mk == MK::Owned && content.len() >= 2 && j % 3 == 0 {
+                    DROP_FUSE.with(|c| c.set(1 + (j % content.len()) as i64));
+                    let _ = std::panic::catch_unwind(std::panic::AssertUnwindSafe(move || drop(cow)));
+                    DROP_FUSE.with(|c| c.set(0));
+                    owned_elems -= content.len() as isize;
+                    trace.push(format!("drop #{} with a panicking element destructor", i));
+                    check_all!(trace.last().unwrap());
+                    continue;
+                }
                 drop(cow);
                 match mk {
                     MK::Owned => owned_elems -= content.len() as isize,
@@ -660,6 +681,37 @@ fn run_str_seq(r: &mut Rng, ctors: &[u64], ops: &[(u64, usize, usize)]) -> (Vec<
     (trace, fail)
 }
 
+/// Cow<[T]> may cross threads only if T may: observed at run time without failing to compile either way (an inherent
+/// method that exists only for Send types shadows a trait method of the same name).
+struct SendProbe<T: ?Sized>(std::marker::PhantomData<T>);
+trait NotSendFallback {
+    fn is_send(&self) -> bool {
+        false
+    }
+}
+impl<T: ?Sized> NotSendFallback for SendProbe<T> {}
+impl<T: ?Sized + Send> SendProbe<T> {
+    fn is_send(&self) -> bool {
+        true
+    }
+}
+/// Sync but not Send (like a lock guard): must keep a Cow of it on its thread.
+#[derive(Clone)]
+struct ThreadBound(std::marker::PhantomData<std::sync::MutexGuard<'static, ()>>);
+/// Send but not Sync.
+#[derive(Clone)]
+struct Unshareable(std::marker::PhantomData<std::cell::Cell<u8>>);
+
+fn auto_trait_probes(rep: &mut Report) {
+    let a = SendProbe::<Cow<'static, [ThreadBound]>>(std::marker::PhantomData).is_send();
+    let b = SendProbe::<Cow<'static, [Unshareable]>>(std::marker::PhantomData).is_send();
+    let c = SendProbe::<Cow<'static, str>>(std::marker::PhantomData).is_send();
+    rep.case(mix(0xC14, (a as u64) | (b as u64) << 1 | (c as u64) << 2), true);
+    if a || !b || !c {
+        rep.violation("C14:send-bound-wrong", jo! {"what" => "Cow<[T]> must be Send exactly when T is Send (its owned buffer or Arc reference is dropped wherever the Cow goes)", "cow_of_sync_but_not_send_elements_is_send" => a, "cow_of_send_elements_is_send" => b, "cow_str_is_send" => c});
+    }
+}
+
 pub fn run(a: &Args) -> Option<Report> {
     match a.leg.as_str() {
         "zst" | "miri-zst" => return Some(run_zst(a)),
@@ -668,6 +720,7 @@ pub fn run(a: &Args) -> Option<Report> {
     }
     rt::quiet_panics();
     let mut rep = Report::new("C14", &a.leg, a.seed);
+    auto_trait_probes(&mut rep);
     let mut r = Rng::new(a.shard_seed());
     let miri = cfg!(miri);
     let run_one = |rep: &mut Report, r: &mut Rng, is_str: bool, ctors: Vec<u64>, ops: Vec<(u64, usize, usize)>| {
